@@ -161,7 +161,7 @@ def run_point(p: Dict[str, Any], verbose: bool = False) -> Tuple[Optional[Dict[s
     if problems:
         verdict = {"what": f"C08 {p}: {problems[0]}", "replay": {"problems": problems[:5]},
                    "signature": {"check": problems[0].split(":")[0]}}
-    return verdict, obs, 1
+    return verdict, obs, w.loop.handles_run
 
 
 async def _unreg(host: Any, info: Any) -> None:
